@@ -1,9 +1,17 @@
 (* props/C11.v -- C11: variable-length values are encoded and decoded without
    loss.  Only statements, each closed by `exact <lemma>`, with Print Assumptions. *)
-From Coq Require Import Permutation.
-From Geff Require Import Base Dtype DtypeLemmas Vlen VlenLemmas.
+From Coq Require Import Permutation QArith.
+From Geff Require Import Base Dtype DtypeLemmas Vlen VlenLemmas VlenCast VlenCastLemmas VlenX VlenXLemmas.
+Open Scope Z_scope.
 Open Scope nat_scope.
 Open Scope list_scope.
+
+(* TWO MODELS.  Vlen.v speaks about dtype NAMES (v_dt : dtype; int32 is int32 whatever
+   its byte order, "str" whatever its width) and has no `missing` argument.  VlenX.v
+   (x-prefixed functions) is the model that is tied to the implementation: numpy dtype
+   identity (byte order, string width, object dtype) and `missing` carried through.
+   C11_model_refines / C11_numeric_agrees connect the two, so every statement of the
+   form `serialize .. = Ok .. -> P` below also holds of the tied model. *)
 
 (* decode (encode l) = l : identical shape and contents for every element, for
    every sequence the encoder accepts (one rank, one dtype), empty and rank-0
@@ -34,13 +42,53 @@ Theorem C11_in_bounds : forall vals rows data,
 Proof. exact serialize_in_bounds. Qed.
 Print Assumptions C11_in_bounds.
 
-(* the encoder accepts exactly the sequences of one rank and one dtype *)
-Theorem C11_accepts_iff_uniform : forall vals, (exists r, serialize vals = Ok r) <-> uniform vals.
-Proof. exact serialize_ok_iff. Qed.
+(* the encoder accepts exactly the sequences of one rank and one NUMPY dtype: same
+   name, same byte order where the dtype has one, same width for strings (xuniform
+   compares the canonical descriptors).  [>i4; <i4] and [U1; U3] are rejected.
+   (Until the audit this theorem was stated on the name-level model, which accepts
+   both: it over-approximated the acceptance of the code.) *)
+Theorem C11_accepts_iff_uniform : forall vals miss,
+  (exists r, xserialize vals miss = Ok r) <->
+  (forall a b, In a vals -> In b vals ->
+     length (xv_shape a) = length (xv_shape b) /\ canon (xv_dt a) = canon (xv_dt b)).
+Proof. exact xserialize_ok_iff. Qed.
 Print Assumptions C11_accepts_iff_uniform.
 
-(* normalisation of ragged input: one dtype, one rank, exactly the Nones flagged,
-   contents = safe cast of the input with leading-axis padding (size preserved) *)
+(* the name-level criterion `uniform` (one rank, one dtype NAME) is the acceptance
+   criterion only under an explicit premise: numeric elements in native byte order *)
+Theorem C11_accepts_native : forall vals miss,
+  forallb native_numeric vals = true ->
+  ((exists r, xserialize vals miss = Ok r) <-> uniform (map forget vals)).
+Proof. exact xserialize_ok_native. Qed.
+Print Assumptions C11_accepts_native.
+
+(* whatever the tied model accepts, the name-level model accepts with the same table
+   and data; `missing` is handed through; the data array has the dtype of the elements
+   in native byte order (int64 for no element) *)
+Theorem C11_model_refines : forall vals miss rows m data ddt,
+  xserialize vals miss = Ok (rows, m, data, ddt) ->
+  serialize (map forget vals) = Ok (rows, data) /\ m = miss /\ ddt = xser_dtype vals /\
+  x_base ddt = ser_dtype (map forget vals).
+Proof. exact xserialize_refines. Qed.
+Print Assumptions C11_model_refines.
+
+(* decode (encode (l, missing)) = (l, missing): identical shape and contents, the dtype
+   of every element up to byte order (np.concatenate answers in native order: a >i4
+   element comes back <i4 with the same values), and the missing flags untouched *)
+Theorem C11_roundtrip_full : forall vals miss rows m data ddt,
+  Forall xwf vals -> xserialize vals miss = Ok (rows, m, data, ddt) ->
+  xdeserialize rows m ddt data =
+    Ok (map (fun a => {| xv_dt := to_native (xv_dt a); xv_shape := xv_shape a; xv_flat := xv_flat a |}) vals, miss).
+Proof. exact xserialize_deserialize. Qed.
+Print Assumptions C11_roundtrip_full.
+
+(* normalisation of ragged input (name-level model).  DEFINITIONAL for the most part:
+   conjuncts 2, 3 and the `nth_error vals i = ...` equation are `construct` /
+   `normalise_one` unfolded (proved by reflexivity) and "contents" is expressed with
+   the model's own `cast_payload`.  The independent content is conjunct 4 (one dtype,
+   one rank), `can_cast_safe (v_dt a) dt` and the preserved size.  What the cast does
+   to the VALUES is stated by C11_cast_exact / C11_normalise_exact_* below; the flags
+   declaratively by C11_flags_exact; the rank by C11_rank. *)
 Theorem C11_normalise : forall l vals miss,
   construct l = Ok (vals, miss) ->
   exists dt nd,
@@ -73,6 +121,181 @@ Theorem C11_order_free : forall l l', Permutation l l' ->
 Proof. exact order_free. Qed.
 Print Assumptions C11_order_free.
 
+(* ---- the cast preserves the value ------------------------------------------------
+   denote d z is the rational denoted by payload z at dtype d (floats are scaled by
+   1024 in the payload encoding).  cast_exact d d' z: the cast payload denotes the same
+   rational at d'.  For every pair numpy calls safe and every payload in the range of
+   the source the cast is exact, EXCEPT int64/uint64 -> float beyond 2^53. *)
+Theorem C11_cast_exact : forall d d' z,
+  is_numeric d = true -> is_numeric d' = true ->
+  can_cast_safe d d' = true -> in_range d z = true ->
+  ((is_int64 d && is_float d' = false) \/ Z.abs z <= 2 ^ 53)%Z ->
+  Qeq (denote d' (cast_payload d d' z)) (denote d z).
+Proof. exact cast_exact_safe. Qed.
+Print Assumptions C11_cast_exact.
+
+(* into a float the cast is exact iff rounding to the mantissa is the identity *)
+Theorem C11_cast_exact_iff_round : forall d d' z,
+  is_float d' = true -> is_float d = false ->
+  (Qeq (denote d' (cast_payload d d' z)) (denote d z) <-> round_bits (mant_bits d') z = z).
+Proof. exact cast_exact_iff_round. Qed.
+Print Assumptions C11_cast_exact_iff_round.
+
+(* lifted to the normalisation: every non-None numeric element comes back with the
+   same values (Forall2 over the flattened contents), under the side condition *)
+Theorem C11_normalise_exact_partial : forall l vals miss,
+  construct l = Ok (vals, miss) ->
+  forall i a, nth_error l i = Some (Some a) ->
+    is_numeric (v_dt a) = true ->
+    forallb (in_range (v_dt a)) (v_flat a) = true ->
+    exists v, nth_error vals i = Some v /\
+      can_cast_safe (v_dt a) (v_dt v) = true /\ is_numeric (v_dt v) = true /\
+      size (v_shape v) = size (v_shape a) /\
+      (Forall (fun z => (is_int64 (v_dt a) && is_float (v_dt v) = false) \/ (Z.abs z <= 2 ^ 53)%Z) (v_flat a) ->
+       Forall2 (fun z z' => Qeq (denote (v_dt v) z') (denote (v_dt a) z)) (v_flat a) (v_flat v)).
+Proof. exact construct_exact. Qed.
+Print Assumptions C11_normalise_exact_partial.
+
+(* ... and without it the statement "normalisation is lossless" is FALSE (open finding
+   int64-rounded-through-float64): [int64 [2^53+1]; float16 []] comes back as 2^53 *)
+Theorem C11_normalise_exact_refuted :
+  exists l vals miss,
+    construct l = Ok (vals, miss) /\
+    Forall (fun o => match o with
+                     | Some a => is_numeric (v_dt a) = true /\ forallb (in_range (v_dt a)) (v_flat a) = true /\ wf_varr a
+                     | None => True end) l /\
+    ~ (forall i a v, nth_error l i = Some (Some a) -> nth_error vals i = Some v ->
+         Forall2 (fun z z' => Qeq (denote (v_dt v) z') (denote (v_dt a) z)) (v_flat a) (v_flat v)).
+Proof. exact construct_exact_refuted. Qed.
+Print Assumptions C11_normalise_exact_refuted.
+
+(* the same on the tied model, where a number may also land in an object array (it
+   becomes the Python int / float / bool of the same value) *)
+Theorem C11_normalise_exact_x : forall l vals miss,
+  xconstruct l = Ok (vals, miss) ->
+  forall i a, nth_error l i = Some (Some a) ->
+    is_numeric (x_base (xv_dt a)) = true ->
+    forallb (in_range (x_base (xv_dt a))) (xv_flat a) = true ->
+    exists v, nth_error vals i = Some v /\
+      size (xv_shape v) = size (xv_shape a) /\
+      (Forall (fun z => (is_int64 (x_base (xv_dt a)) && is_float (x_base (xv_dt v)) = false) \/ (Z.abs z <= 2 ^ 53)%Z) (xv_flat a) ->
+       Forall2 (fun z z' => qopt_eq (xdenote (xv_dt v) z') (xdenote (xv_dt a) z)) (xv_flat a) (xv_flat v)).
+Proof. exact xconstruct_exact. Qed.
+Print Assumptions C11_normalise_exact_x.
+
+(* ---- whether a sequence normalises ------------------------------------------------ *)
+(* numeric input never fails (the can_cast loop of _get_common_type_dims is dead code
+   on numeric dtypes: np.result_type is an upper bound in the safe-cast order) *)
+Theorem C11_numeric_never_fails : forall l,
+  forallb is_numeric (map v_dt (somes l)) = true ->
+  (exists dt nd, common_type_dims l = Ok (dt, nd) /\ is_numeric dt = true) /\
+  (exists vals miss, construct l = Ok (vals, miss)).
+Proof. intros l H. split; [exact (common_type_dims_total l H) | exact (construct_total l H)]. Qed.
+Print Assumptions C11_numeric_never_fails.
+
+(* on the tied model the failures are characterised exactly: ValueError, and only when
+   two elements have different numpy kinds and one element is a str / bytes array *)
+Theorem C11_fails_iff_mixes_strings : forall l e,
+  xconstruct l = Err e <->
+  e = ValueError /\
+  ((exists a b, In a (bases l) /\ In b (bases l) /\ kcode a <> kcode b) /\
+   (exists c, In c (bases l) /\ has_width c = true)).
+Proof. exact xconstruct_fails_iff. Qed.
+Print Assumptions C11_fails_iff_mixes_strings.
+
+(* ---- the rank ---------------------------------------------------------------------- *)
+(* nd is the largest rank of the non-None elements (an upper bound that is attained);
+   (int64, 1) when there is no non-None element *)
+Theorem C11_rank : forall l dt nd,
+  xcommon_type_dims l = Ok (dt, nd) ->
+  ((forall o, In o l -> o = None) -> dt = native DI64 /\ nd = 1) /\
+  ((exists a, In (Some a) l) ->
+     (forall a, In (Some a) l -> length (xv_shape a) <= nd) /\
+     (exists a, In (Some a) l /\ length (xv_shape a) = nd)).
+Proof. exact xcommon_rank. Qed.
+Print Assumptions C11_rank.
+
+Theorem C11_rank_names : forall l dt nd,
+  common_type_dims l = Ok (dt, nd) ->
+  ((forall o, In o l -> o = None) -> dt = DI64 /\ nd = 1) /\
+  ((exists a, In (Some a) l) ->
+     (forall a, In (Some a) l -> length (v_shape a) <= nd) /\
+     (exists a, In (Some a) l /\ length (v_shape a) = nd)).
+Proof. exact common_rank. Qed.
+Print Assumptions C11_rank_names.
+
+(* ---- normalisation on the tied model ------------------------------------------------ *)
+(* one native dtype and one rank; every element keeps its position; a non-None element
+   is padded with leading 1-axes (size preserved) and safely castable to the common
+   dtype; a None becomes an all-zero-dimension element.  (The last equation,
+   xv_flat v = map (xcast_payload ..), is the model read back; what it means for the
+   values is C11_normalise_exact_x.) *)
+Theorem C11_normalise_x : forall l vals miss,
+  xconstruct l = Ok (vals, miss) ->
+  exists dt nd,
+    xcommon_type_dims l = Ok (dt, nd) /\ to_native dt = dt /\
+    length vals = length l /\ miss = flags_of l /\
+    Forall (fun v => xv_dt v = dt /\ length (xv_shape v) = nd) vals /\
+    (forall i a, nth_error l i = Some (Some a) ->
+       xcan_cast (xv_dt a) dt = true /\
+       exists v, nth_error vals i = Some v /\ xv_dt v = dt /\
+         xv_shape v = repeat 1 (nd - length (xv_shape a)) ++ xv_shape a /\
+         size (xv_shape v) = size (xv_shape a) /\
+         xv_flat v = map (xcast_payload (xv_dt a) dt) (xv_flat a)) /\
+    (forall i, nth_error l i = Some None ->
+       exists v, nth_error vals i = Some v /\ xv_shape v = repeat 0 nd).
+Proof. exact xconstruct_spec. Qed.
+Print Assumptions C11_normalise_x.
+
+(* exactly the None entries are flagged (and the flag array has the length of the input) *)
+Theorem C11_flags_exact : forall l,
+  (forall i, nth_error l i = Some None <-> (exists m, flags_of l = Some m /\ nth_error m i = Some true)) /\
+  (forall m, flags_of l = Some m -> length m = length l).
+Proof. intros l. split; [intros i; exact (flags_exact l i) | exact (flags_length l)]. Qed.
+Print Assumptions C11_flags_exact.
+
+(* on numeric input (any byte order) the tied model is the name-level model: all the
+   theorems about `construct` above speak about it *)
+Theorem C11_numeric_agrees : forall l,
+  forallb is_numeric (bases l) = true ->
+  xconstruct l = match construct (map (option_map forget) l) with
+                 | Ok (vals, m) => Ok (map embed vals, m)
+                 | Err e => Err e
+                 end.
+Proof. exact xconstruct_numeric. Qed.
+Print Assumptions C11_numeric_agrees.
+
+(* ---- the whole path: construct -> serialize -> deserialize -------------------------- *)
+(* whenever normalisation succeeds, encoding its result (with its missing array)
+   succeeds and decoding returns exactly the normalised sequence, with exactly the
+   None positions flagged *)
+Theorem C11_pipeline : forall l vals miss,
+  (forall a, In (Some a) l -> xwf a) ->
+  xconstruct l = Ok (vals, miss) ->
+  xpipeline l = Ok (vals, miss) /\ miss = flags_of l /\ length vals = length l.
+Proof. exact xpipeline_spec. Qed.
+Print Assumptions C11_pipeline.
+
+(* ... and on numeric input the whole path never fails *)
+Theorem C11_pipeline_total : forall l,
+  forallb is_numeric (bases l) = true -> (forall a, In (Some a) l -> xwf a) ->
+  exists vals, xconstruct l = Ok (vals, flags_of l) /\ xpipeline l = Ok (vals, flags_of l).
+Proof. exact xpipeline_total. Qed.
+Print Assumptions C11_pipeline_total.
+
+(* order independence on the tied model, in the strong form: both orders are normalised
+   by one elementwise function, so the outputs correspond under the SAME permutation *)
+Theorem C11_order_free_x : forall l l', Permutation l l' ->
+  xcommon_type_dims l = xcommon_type_dims l' /\
+  match xconstruct l, xconstruct l' with
+  | Ok (vals, _), Ok (vals', _) =>
+      Permutation vals vals' /\ exists f, vals = map f l /\ vals' = map f l'
+  | Err e, Err e' => e = e'
+  | _, _ => False
+  end.
+Proof. exact xorder_free. Qed.
+Print Assumptions C11_order_free_x.
+
 (* non-vacuity: a concrete mixed sequence meets the premises and normalises *)
 Example C11_nonvacuous :
   let a := {| v_dt := DI8; v_shape := [2]; v_flat := [1; 2]%Z |} in
@@ -87,3 +310,41 @@ Proof.
   cbv zeta. eexists. eexists. eexists. split; [vm_compute; reflexivity|].
   split; [repeat constructor|]. split; [vm_compute; reflexivity|]. split; reflexivity.
 Qed.
+
+(* non-vacuity of the dtype-identity statements: big-endian next to little-endian and
+   U1 next to U3 are rejected, two big-endian elements are accepted and come back in
+   native order with the flags; an object array absorbs numbers; a string next to a
+   number fails; the pipeline returns the normalised sequence *)
+Example C11_nonvacuous_x :
+  let be := {| x_base := DI32; x_swap := true; x_width := 0 |} in
+  let le := native DI32 in
+  let u1 := {| x_base := DStr; x_swap := false; x_width := 1 |} in
+  let u3 := {| x_base := DStr; x_swap := false; x_width := 3 |} in
+  let arr d sh fl := {| xv_dt := d; xv_shape := sh; xv_flat := fl |} in
+  forallb native_numeric [arr le [2] [1; 2]%Z; arr (native DI8) [1] [3]%Z] = true /\
+  uniform (map forget [arr le [2] [1; 2]%Z; arr le [1] [3]%Z]) /\
+  xserialize [arr be [2] [1; 2]%Z; arr le [1] [3]%Z] None = Err ValueError /\
+  xserialize [arr u1 [1] [7]%Z; arr u3 [1] [8]%Z] None = Err ValueError /\
+  xserialize [arr be [2] [1; 2]%Z; arr be [1] [3]%Z] (Some [false; true]) =
+    Ok ([[0; 2]; [2; 1]], Some [false; true], [1; 2; 3]%Z, le) /\
+  xdeserialize [[0; 2]; [2; 1]] (Some [false; true]) le [1; 2; 3]%Z =
+    Ok ([arr le [2] [1; 2]%Z; arr le [1] [3]%Z], Some [false; true]) /\
+  xconstruct [Some (arr (native DObj) [1] [8 * 5 + 3]%Z); None; Some (arr be [] [7]%Z)] =
+    Ok ([arr (native DObj) [1] [43]%Z; arr (native DObj) [0] []; arr (native DObj) [1] [56]%Z], Some [false; true; false]) /\
+  xconstruct [Some (arr u1 [1] [7]%Z); Some (arr le [1] [3]%Z)] = Err ValueError /\
+  xconstruct [Some (arr u1 [1] [7]%Z); None; Some (arr u3 [] [8]%Z)] =
+    Ok ([arr u3 [1] [7]%Z; arr u3 [0] []; arr u3 [1] [8]%Z], Some [false; true; false]) /\
+  xpipeline [Some (arr be [2] [1; 2]%Z); None; Some (arr (native DF16) [] [512]%Z)] =
+    Ok ([arr (native DF64) [2] [1024; 2048]%Z; arr (native DF64) [0] []; arr (native DF64) [1] [512]%Z],
+        Some [false; true; false]).
+Proof. cbv zeta. repeat split; try (vm_compute; reflexivity). repeat constructor. Qed.
+
+(* non-vacuity of the exactness statements: the side condition holds for an int64 next
+   to a float16 below 2^53 (exact) and fails for 2^53+1 (rounded) *)
+Example C11_nonvacuous_cast :
+  (exists vals miss,
+     construct [Some {| v_dt := DI64; v_shape := [1]; v_flat := [2 ^ 53]%Z |};
+                Some {| v_dt := DF16; v_shape := [0]; v_flat := [] |}] = Ok (vals, miss) /\
+     map v_flat vals = [[2 ^ 53 * 1024]%Z; []]) /\
+  (exists vals miss, construct inexact_input = Ok (vals, miss) /\ map v_flat vals = [[2 ^ 53 * 1024]%Z; []]).
+Proof. split; eexists; eexists; split; vm_compute; reflexivity. Qed.
